@@ -55,6 +55,39 @@ func init() {
 				})})
 			}})
 		}
+		// two of three children die at (nearly) the same moment, the first and the last in spec order: whichever exit
+		// the supervisor handles first, in the end every child in the scope of the strategy is replaced and running
+		harn.Register(harn.Scenario{Property: "C08", Name: fmt.Sprintf("realnode-%s-two-of-three-die-together", tn), Run: func(c *harn.Ctx) *harn.Result {
+			return harn.Explore(c, harn.Sched{QuickBound: 1, ThoroughBound: 2, Preempt: false, Cache: true, HorizonS: 30, Body: nodeBody(func(w *World) {
+				t := newTree(w)
+				t.factories = map[string]gen.ProcessFactory{}
+				f := t.sup("S", typ, "w1", "w2", "w3")
+				w.Setup("start", func() {
+					if _, err := w.n.Spawn(f, gen.ProcessOptions{}); err != nil {
+						panic(err)
+					}
+				})
+				p1, p3 := w.pids["w1"], w.pids["w3"]
+				w.ex.Thread("A", func() { w.n.Kill(p1) })
+				w.ex.Thread("B", func() { w.n.Kill(p3) })
+				w.Check = func() {
+					if !t.anyAlive("S") {
+						w.ex.Fail("supervisor-died-on-restart", "w1 and w3 were killed; the %s supervisor terminated itself (restart intensity 100)", tn)
+						return
+					}
+					for _, n := range []string{"w1", "w2", "w3"} {
+						min := 2
+						if n == "w2" && typ == act.SupervisorTypeOneForOne {
+							min = 1
+						}
+						if len(t.all[n]) < min || !t.anyAlive(n) {
+							w.ex.Fail("child-not-restarted", "w1 and w3 were killed at the same moment under %s: %s was started %d times (want at least %d), alive=%v", tn, n, len(t.all[n]), min, t.anyAlive(n))
+						}
+					}
+					w.Out("w1=%d w2=%d w3=%d", len(t.all["w1"]), len(t.all["w2"]), len(t.all["w3"]))
+				}
+			})})
+		}})
 		// the replacement of a crashed child crashes at once (from a message it sends itself in Init): the supervisor
 		// must notice that termination too and start a third incarnation
 		harn.Register(harn.Scenario{Property: "C08", Name: fmt.Sprintf("realnode-%s-replacement-dies-at-once", tn), Shards: 8, Run: func(c *harn.Ctx) *harn.Result {
